@@ -205,3 +205,95 @@ Proof.
   eapply add_packages_faithful; [exact Hnd | apply filter_In; split; eassumption | exact H].
 Qed.
 End Build.
+
+(* ---- one record per package path ---- *)
+Definition unique_paths (w : world) : Prop := NoDup (map pr_path (w_pkgs w)).
+
+Lemma NoDup_snoc {A} (l : list A) (x : A) : NoDup l -> ~ In x l -> NoDup (l ++ [x]).
+Proof.
+  induction l as [|y l IH]; intros Hnd Hni; cbn; [constructor; [intros []|constructor]|].
+  inversion Hnd as [|y' l' Hy Hl]; subst. constructor.
+  - intros Hin. apply in_app_or in Hin. destruct Hin as [Hin | [Heq | []]]; [exact (Hy Hin)|]. subst. apply Hni; left; reflexivity.
+  - apply IH; [exact Hl|]. intros Hin; apply Hni; right; exact Hin.
+Qed.
+
+Lemma get_pkg_unique w path : unique_paths w -> unique_paths (get_pkg w path).
+Proof.
+  unfold unique_paths, get_pkg. intros H. destruct (existsb _ _) eqn:E; [exact H|].
+  cbn [w_pkgs]. rewrite map_app. cbn [map pr_path].
+  apply NoDup_snoc; [exact H|].
+  intros Hin. apply in_map_iff in Hin. destruct Hin as [r [He Hi]].
+  assert (T : existsb (fun r => str_eqb (pr_path r) path) (w_pkgs w) = true) by (apply existsb_path; exists r; split; assumption).
+  congruence.
+Qed.
+
+Lemma upd_pkg_unique w path f : keeps_path f -> unique_paths w -> unique_paths (upd_pkg w path f).
+Proof.
+  intros Hk H. apply (get_pkg_unique _ path) in H. unfold unique_paths, upd_pkg in *. cbn [w_pkgs].
+  rewrite map_map.
+  erewrite map_ext; [exact H|].
+  intros r. cbn. destruct (str_eqb _ _); [apply Hk | reflexivity].
+Qed.
+
+Lemma get_pkgs_unique l w : unique_paths w -> unique_paths (fold_left get_pkg l w).
+Proof. revert w. induction l as [|x l IH]; intros w H; cbn [fold_left]; [exact H|]. apply IH, get_pkg_unique, H. Qed.
+
+Section BuildUnique.
+Variable v2 : bool.
+Variable p : prog.
+Variable fuel : nat.
+
+Lemma add_obj_unique w o w' : add_obj v2 p fuel (Some w) o = Some w' -> unique_paths w -> unique_paths w'.
+Proof.
+  intros H Hu. unfold add_obj in H. destruct o as [t | ostr sg | ostr ty | ostr ty v].
+  - destruct (walk v2 p fuel (w_u w) None t) as [[u' o']|]; [|discriminate]. inversion H; subst w'. exact Hu.
+  - destruct (walk v2 p fuel (w_u w) None sg) as [[u' o']|]; [|discriminate]. inversion H; subst w'.
+    apply upd_pkg_unique; [intros r; reflexivity | exact Hu].
+  - destruct (walk v2 p fuel (w_u w) None ty) as [[u' o']|]; [|discriminate]. inversion H; subst w'.
+    apply upd_pkg_unique; [intros r; reflexivity | exact Hu].
+  - destruct (walk v2 p fuel (w_u w) None ty) as [[u' o']|]; [|discriminate]. inversion H; subst w'.
+    apply upd_pkg_unique; [intros r; reflexivity | exact Hu].
+Qed.
+
+Lemma add_objs_unique os w w' :
+  fold_left (add_obj v2 p fuel) os (Some w) = Some w' -> unique_paths w -> unique_paths w'.
+Proof.
+  revert w. induction os as [|o os IH]; intros w H Hu; cbn [fold_left] in H.
+  - inversion H; subst; exact Hu.
+  - destruct (add_obj v2 p fuel (Some w) o) as [w1|] eqn:E; [|rewrite add_objs_none in H; discriminate].
+    eapply IH; [exact H|]. eapply add_obj_unique; eassumption.
+Qed.
+
+Lemma add_package_unique w g w' : add_package v2 p fuel (Some w) g = Some w' -> unique_paths w -> unique_paths w'.
+Proof.
+  unfold add_package. intros H Hu.
+  destruct (fold_left (add_obj v2 p fuel) (g_scope g) _) as [w2|] eqn:E; [|discriminate].
+  inversion H; subst w'. clear H.
+  apply upd_pkg_unique; [intros r; reflexivity|].
+  apply get_pkgs_unique.
+  eapply add_objs_unique; [exact E|].
+  apply upd_pkg_unique; [intros r; reflexivity | exact Hu].
+Qed.
+
+Lemma add_packages_unique gs w w' :
+  fold_left (add_package v2 p fuel) gs (Some w) = Some w' -> unique_paths w -> unique_paths w'.
+Proof.
+  revert w. induction gs as [|g gs IH]; intros w H Hu; cbn [fold_left] in H.
+  - inversion H; subst; exact Hu.
+  - destruct (add_package v2 p fuel (Some w) g) as [w1|] eqn:E; [|rewrite add_packages_none in H; discriminate].
+    eapply IH; [exact H|]. eapply add_package_unique; eassumption.
+Qed.
+
+Lemma get_pkgs_paths_unique (pkgs : list gpkg) w :
+  unique_paths w -> unique_paths (fold_left (fun w g => get_pkg w (g_path g)) pkgs w).
+Proof. revert w. induction pkgs as [|g l IH]; intros w H; cbn [fold_left]; [exact H|]. apply IH, get_pkg_unique, H. Qed.
+
+(* every package of the universe is on record exactly once, whatever was loaded and in whatever order *)
+Theorem one_record_per_path u0 pkgs w :
+  build_from v2 p fuel u0 pkgs = Some w -> NoDup (map pr_path (w_pkgs w)).
+Proof.
+  intros H. unfold build_from in H.
+  eapply add_packages_unique; [exact H|].
+  destruct v2; [apply get_pkgs_paths_unique|]; constructor.
+Qed.
+End BuildUnique.
